@@ -1980,6 +1980,11 @@ int main(int argc, char **argv)
       {"variable-timeStepFactor-0-with-extendedLagrangian",
        "colvar {\n name d\n timeStepFactor 0\n extendedLagrangian on\n extendedFluctuation 0.2\n extendedTimeConstant 100.0\n extendedTemp 300.0\n distance {\n group1 {\n atomNumbers 1 2\n }\n" + g2 +
        " }\n}\nharmonic {\n colvars d\n centers 5.0\n forceConstant 1.0\n}\n"},
+      // valid inputs that size an internal array from a quantity that can be zero (run under the address sanitizer)
+      {"valid:coordNum-with-a-dummy-group2-and-a-pair-list",
+       "colvar {\n name c\n coordNum {\n cutoff 4.0\n tolerance 0.01\n pairListFrequency 2\n group1 {\n atomNumbers 1 2 3 4 5 6 7 8 9 10 11 12\n }\n group2 {\n dummyAtom (1.0, 2.0, 3.0)\n }\n }\n}\nharmonic {\n colvars c\n centers 3.0\n forceConstant 1.0\n}\n"},
+      {"valid:selfCoordNum-of-two-atoms-with-a-pair-list",
+       "colvar {\n name c\n selfCoordNum {\n cutoff 4.0\n tolerance 0.01\n pairListFrequency 2\n group1 {\n atomNumbers 1 2\n }\n }\n}\nharmonic {\n colvars c\n centers 3.0\n forceConstant 1.0\n}\n"},
       {"colvarsTrajFrequency-2^61", "colvarsTrajFrequency 2305843009213693952\ncolvar {\n name d\n distance {\n group1 {\n atomNumbers 1 2\n }\n" + g2 + " }\n}\n"},
     };
     for (auto const &li : listed) {
@@ -1996,7 +2001,7 @@ int main(int argc, char **argv)
       // "RC <parse> ..." first line of the child's answer
       int prc = -1;
       { size_t pz = o.out.find("RC "); if (pz != std::string::npos) prc = atoi(o.out.c_str() + pz + 3); }
-      if (prc == 0 && std::string(li.name) != "colvarsTrajFrequency-2^61")
+      if (prc == 0 && std::string(li.name) != "colvarsTrajFrequency-2^61" && std::string(li.name).rfind("valid:", 0) != 0)
         total.violation(std::string("C10:listed:") + li.name + ":accepted-without-an-error", det + "}");
     }
   }
